@@ -578,7 +578,14 @@ impl Database {
                 10,
             ) {
                 Ok(current) => {
-                    let next = (current + inc).to_string();
+                    let next = match current.checked_add(inc) {
+                        Some(next) => next.to_string(),
+                        None => {
+                            return Response::Error {
+                                msg: "Increment overflow".to_string(),
+                            }
+                        }
+                    };
                     db.insert(key.clone(), Value::from(next.clone()));
                     (next, -1)
                 }
